@@ -53,7 +53,8 @@ class C02(PropBase):
                       "memoryview_input", "scribbled_after_call", "cut_in_tag_or_first_len", "pdu_boundary_inside_chunk",
                       "sweep_single_cuts", "sweep_pair_cuts", "client_subject", "server_subject", "four_octet_outer_length",
                       "sixty_plus_pdus_in_one_call", "two_unknown_result_codes_in_stream", "stream_over_256KiB",
-                      "flag_control_with_and_without_value")
+                      "flag_control_with_and_without_value", "other_session_between_chunks", "duplicate_request_ids_in_stream",
+                      "five_plus_length_octets")
 
     # ------------------------------------------------------------------ generation of prepared session + stream
 
@@ -75,7 +76,8 @@ class C02(PropBase):
         prep = []
         expected = []
         own_enc = rng.random() < 0.3  # stream encoded by the independent encoder (a foreign, conforming peer)
-        own_style = rng.choice([("outer4", None, None), ("outer4", None, None), ("ad", 4, None), ("long", 2, 1), ("all4", 4, 4)])
+        own_style = rng.choice([("outer4", None, None), ("outer4", None, None), ("ad", 4, None), ("long", 2, 1), ("all4", 4, 4),
+                                ("long5", 5, None), ("long8", 8, 5)])
         npdu = rng.choice([1, 2, 2, 3, 3, 4, 5, 6, 8, 12])
         if rng.random() < 0.012:
             npdu = rng.choice([4, 5, 6])  # few PDUs, each about 64 KiB: a stream of more than 256 KiB in one delivery
@@ -104,6 +106,10 @@ class C02(PropBase):
                 mid = _do(helper, m, a)
                 msgs.append(expected_message(m, a, mid))
             lib_stream = helper.data_to_send()
+            if own_enc and len(msgs) >= 2 and rng.random() < 0.25:
+                # a (foreign) client that reuses the id of a request still in progress: well-formed all the same
+                j = rng.randrange(1, len(msgs))
+                msgs[j] = dict(msgs[j], id=msgs[rng.randrange(0, j)]["id"])
             expected = msgs
             stream = _own(msgs, own_style) if own_enc else lib_stream
         else:
@@ -156,6 +162,7 @@ class C02(PropBase):
         return {"op": "init", "role": role, "customs": customs, "prep": prep, "stream": stream.hex(),
                 "expected": [norm(x) for x in expected], "own_enc": own_enc,
                 "style": rng.choice(["mixed", "mixed", "byte", "header", "coalesce"]), "sweep_seed": rng.getrandbits(32),
+                "debug_logging": rng.random() < 0.3, "interlope": rng.choice([0.0, 0.0, 0.15]),
                 "sessions": [{"name": "S", "role": role, "register": customs, "predict": False},
                              {"name": "T", "role": role, "register": customs, "predict": False}]}
 
@@ -233,6 +240,11 @@ class C02(PropBase):
             st.hit("sixty_plus_pdus_in_one_call")
         if len(stream) > 262144:
             st.hit("stream_over_256KiB")
+        ids = [m["id"] for m in init["expected"]]
+        if init["role"] == "s" and len(set(ids)) < len(ids):
+            st.hit("duplicate_request_ids_in_stream")
+        if len(stream) > 2 and stream[1] in (0x85, 0x88):
+            st.hit("five_plus_length_octets")
         flagvals = {}
         for m in init["expected"]:
             for c in m.get("controls") or []:
@@ -283,6 +295,8 @@ class C02(PropBase):
         else:
             n = policy.chunk_len(rng, avail, "mixed")
         n = max(0, min(n, avail))
+        if st.w.init.get("interlope") and rng.random() < st.w.init["interlope"]:
+            return {"op": "interlope", "id": rng.choice([1, 5, 300])}
         bk, scr = policy.buf_kind(rng)
         return {"op": "deliver", "n": n, "buf": bk, "scribble": scr}
 
@@ -307,6 +321,22 @@ class C02(PropBase):
         return "boundary", len(x["units"])
 
     def step(self, st, op):
+        if op["op"] == "interlope" and not st.x["discard"]:
+            # another, unrelated session of the same process handles a complete message between two chunks of the subject
+            other = sansldap.LDAPServer()
+            probe = rfc4511.enc_msg({"t": "ExtendedRequest", "id": int(op.get("id", 1)), "controls": [], "name": "1.3.6.1.4.1.1466.20037",
+                                     "value": None})
+            try:
+                r = other.receive(probe)
+                okk = isinstance(r, list) and len(r) == 1
+                why = "returned %r" % (r,)
+            except Exception as e:  # noqa: BLE001
+                okk, why = False, "raised %s: %s" % (type(e).__name__, e)
+            st.hit("other_session_between_chunks")
+            if not okk:
+                raise Violation(P, "other-session-disturbed", "a fresh server session that received one complete ExtendedRequest while the "
+                                "subject held %d undelivered-to-application bytes %s" % (st.x["off"] - self._completed_end(st, st.x["off"]), why))
+            return
         if op["op"] != "deliver":
             return
         x = st.x
@@ -494,7 +524,7 @@ def values_known():
 def _own(msgs, own_style):
     _name, cf, pf = own_style
     with ber.style(cf, pf):
-        return b"".join(rfc4511.enc_msg(x, outer_form=4) for x in msgs)
+        return b"".join(rfc4511.enc_msg(x, outer_form=max(4, cf or 0)) for x in msgs)
 
 
 def _full(m):
